@@ -1200,7 +1200,9 @@ class Client():
             if self.connector.connected:
                 if self.respondent:
                     if self.respondent.evented and self.respondent.leid is not None:  # update Last-Event-ID header
-                        self.requester.headers['Last-Event-ID'] = self.respondent.leid
+                        # header value is the id encoded as UTF-8 (packHeader would
+                        # encode the str as latin-1 and raise on other characters)
+                        self.requester.headers['Last-Event-ID'] = self.respondent.leid.encode('utf-8')
                         self.connector.txbs.clear()  # remove any stale request leftovers
                         self.transmit()  # rebuilds and queues up most recent http request here
 
